@@ -365,8 +365,8 @@ def main():
 
 
 def vacuity_check(repo, bdir, report):
-    """weave a second file in which every function under contract additionally ensures `false`;
-    every such function must FAIL, otherwise its preconditions / assumed contracts are contradictory"""
+    """weave a second file in which every function under contract starts with `assert(false)`;
+    the assertion must FAIL in every function, otherwise its preconditions (or the assumed axioms) are contradictory"""
     out = os.path.join(bdir, 'vacuity.rs')
     try:
         rep = weave.build(repo, out, vacuity=True)
@@ -382,6 +382,7 @@ def vacuity_check(repo, bdir, report):
                 if o['name'].startswith('vacuity.') and o['line'] <= sp['line_start'] <= o['end']:
                     failed_fns.add(o['name'][len('vacuity.'):])
     expected = [f['path'] for f in rep['functions'] if f['kind'] == 'exec']
+    # (trusted functions have no body to reach)
     vacuous = [f for f in expected if f not in failed_fns]
     return {'functions_checked': len(expected), 'vacuous': vacuous, 'wall_s': round(res['wall'], 1)}
 
